@@ -1647,7 +1647,7 @@ class C11(Check):
               'rename_ok': 200, 'delete_ok': 150, 'subscribe_ok': 150,
               'unsubscribe_ok': 100, 'dumps': 12000,
               'full_dump_steps': 2000, 'probe_missing': 200}
-    time_cap = {'quick': 60.0, 'thorough': 600.0}
+    time_cap = {'quick': 120.0, 'thorough': 600.0}
 
     def cases(self, tier: str, seed: int) -> Iterable[dict[str, Any]]:
         n = 2000 if tier == 'quick' else 30000
